@@ -391,7 +391,10 @@ def directed_drop_slow():
     handler is still at work long after its peer has gone.  It must finish all the same."""
     progs = []
     for k in range(2):
-        progs.append([{"a": "drop", "name": "amend_step", "args": [["f2", "f3"][k:k + 1], [], [f"q{k}"], []],
+        # the file is declared static a moment earlier, so its hash job is still waiting for its
+        # thread when amend_step promotes it and waits for it between its two transactions
+        progs.append([{"a": "static", "files": [["f2", "f3"][k]]},
+                      {"a": "drop", "name": "amend_step", "args": [["f2", "f3"][k:k + 1], [], [f"q{k}"], []],
                        "when": "sent", "die": True}])
     return progs, {"njob": 2, "keep_going": True,
                    "thread_delay": {"p": 1.0, "min": 3.4, "max": 4.2, "seed": 5}}, 0
@@ -541,7 +544,8 @@ def run_case(case):
         if case["kind"] == "directed":
             progs, cfg, min_rejected = DIRECTED[case["scenario"]]()
             witness.update({"programs": progs, "cfg": cfg})
-            for mode in ("free", "serial", "jitter"):
+            # drop_slow: every hash thread of that build takes seconds, one schedule is enough
+            for mode in (("free",) if case["scenario"] == "drop_slow" else ("free", "serial", "jitter")):
                 for p in list(os.listdir(".")):
                     shutil.rmtree(p) if os.path.isdir(p) else os.unlink(p)
                 setup_project(rng, progs, extra_static=False)
